@@ -1,5 +1,5 @@
 """C17 - reported diagnostics describe the run that happened (AndersonCD level S + history oracle)."""
-from .solver_common import run_parallel
+from .solver_common import run_parallel, run_bbox
 
 LEAN_MODULES = ["Skglm.Properties.C17"]
 
@@ -9,6 +9,7 @@ def run(ctx, rep):
                 "that the returned stop_crit is the last one computed; oracle: each entry equals loss + penalty "
                 "recomputed from X, y and the iterate logged at that time (intercept unpenalised)")
     run_parallel(ctx, rep, oracles=["history"])
+    run_bbox(ctx, rep, oracles=["history", "history_len"])
 
 
 def replay(ctx, payload):
